@@ -129,6 +129,23 @@ Proof.
   - cbn [bind andb]. rewrite app_nil_r in Hdup. rewrite Hdup. reflexivity.
 Qed.
 
+(* the check is over ALL pairs: two fields of one name and shape are found wherever they sit among the own and
+   inherited fields -- next to each other or with any other fields (e.g. an odd-shaped field of the same name) between *)
+Lemma has_dup_field_any_position : forall pre a mid b post,
+  fd_ident (fst a) = fd_ident (fst b) -> same_shape (fd_kard (fst a)) (fd_kard (fst b)) = true ->
+  has_dup_field (pre ++ a :: mid ++ b :: post) = true.
+Proof.
+  intros pre a mid b post Hn Hs. induction pre as [|x pre IH]; cbn [app has_dup_field].
+  - apply orb_true_iff. left. apply existsb_exists. exists b. split; [apply in_or_app; right; left; reflexivity|].
+    rewrite Hn, beq_refl, Hs. reflexivity.
+  - rewrite IH. apply orb_true_r.
+Qed.
+
+(* one atom and one cluster of a name are not a duplicate: `x` next to `x[2]` is legal and denotes x, x[0], x[1] *)
+Lemma atom_and_cluster_no_dup : forall f k (na nb : Node),
+  has_dup_field [({| fd_ident := f; fd_kard := Atom |}, na); ({| fd_ident := f; fd_kard := Cluster k |}, nb)] = false.
+Proof. intros. cbn. rewrite andb_false_r. reflexivity. Qed.
+
 Definition nonzero (f : FieldDef) : Prop := kard_eqb (fd_kard f) (Cluster 0) = false.
 
 (* `x: G` where G still has generics *)
